@@ -553,6 +553,8 @@ def mon_c15(h, obs):
             post = None
             if i + 1 < len(steps) and steps[i + 1][0] == f"q prop {ref}":
                 post = parse_prop(steps[i + 1][1])
+            if post is None:
+                last.pop(ref, None)      # a vote whose effect was not read back: the proposal's state is unknown until the next read
             if pre is not None and post is not None:
                 if not ok and post["raw"] != pre["raw"]:
                     hits.append(Hit("C15/refused-vote-changed-proposal", f"vote of {voter} on {ref} was refused ({rc}) but the proposal changed", detail=op))
@@ -789,11 +791,45 @@ class LcGen(GovGen):
         self.ops.append(f"q obj node {obj}")
         self.tags.add("node-register")
 
+    def audit_admin(self):
+        """a non-validator node is registered, an audit administrator is registered and bound to it; then one of them is logged out
+        (or the admin frozen): the node manager and the role manager drive each other's records (bind / unbind / pause), every
+        status is read back after every step"""
+        r = self.r
+        self.audits = getattr(self, "audits", 0) + 1
+        n, g = f"n{7 - self.audits}", f"g{2 + self.audits}"
+        self.fund(g)
+        self.submit(r.choice(ADMINS), f"node RegisterNode s:@{n} s:nvpNode s:~ u:0 s:nvp-{n} s:c1 s:reason", "node-register-nvp", "node", "@" + n)
+        ref, kind, mod, obj = self.props[-1]
+        self.vote_all(ref, mod, obj, r.choice(["approve", "approve", "approve", "reject"]))
+        self.submit(r.choice(ADMINS), f"role RegisterRole s:@{g} s:auditAdmin s:@{n} s:reason", "role-register-audit", "role", "@" + g)
+        ref, kind, mod, obj = self.props[-1]
+        self.ops.append(f"q obj node @{n}")
+        self.vote_all(ref, mod, obj, r.choice(["approve", "approve", "reject"]))
+        self.ops.append(f"q obj node @{n}")
+        nxt = r.choice(["node-logout", "role-logout", "role-freeze", "none"])
+        if nxt == "node-logout":
+            self.submit(r.choice(ADMINS), f"node LogoutNode s:@{n} s:reason", "node-logout", "node", "@" + n)
+        elif nxt == "role-logout":
+            self.submit(r.choice(ADMINS), f"role LogoutRole s:@{g} s:reason", "role-logout", "role", "@" + g)
+        elif nxt == "role-freeze":
+            self.submit(r.choice(ADMINS), f"role FreezeRole s:@{g} s:reason", "role-freeze", "role", "@" + g)
+        if nxt != "none":
+            ref, kind, mod, obj = self.props[-1]
+            self.ops.append(f"q obj node @{n}")
+            self.ops.append(f"q obj role @{g}")
+            self.vote_all(ref, mod, obj, r.choice(["approve", "approve", "reject"]))
+        self.ops.append(f"q obj node @{n}")
+        self.ops.append(f"q obj role @{g}")
+        self.tags.add("audit-admin:" + nxt)
+
     def govern(self):
         r = self.r
         k = r.random()
         if r.random() < 0.08 and getattr(self, "nodes", 0) < 2:
             return self.node_register()
+        if r.random() < 0.06 and getattr(self, "audits", 0) < 2:
+            return self.audit_admin()
         if k < 0.45:
             s = r.choice(SVC)
             c = s.split(":")[0]
